@@ -120,7 +120,11 @@ theorem copyValue_veq (v : Val) (s : St) : (copyValue v s).1.veq v = true := by
     have ih := copyList_veq xs s
     simp only [copyValue]
     split
-    · simp [Val.veq, ih]
+    · have hb : k.rebuilt.base = k.base := by
+        cases k with
+        | usr b => cases b <;> rfl
+        | _ => rfl
+      simp [Val.veq, ih, hb]
     · simp [Val.veq, veqL_refl]
 theorem copyList_veq (xs : List Val) (s : St) : veqL (copyList xs s).1 xs = true := by
   match xs with
@@ -321,7 +325,7 @@ theorem laxCut_fr (n : Nat) (v : Val) (s : St) :
   | node j k ks xs =>
     simp only [laxCut]
     split
-    · exact (mk_fr k [] (xs.take n) false s).weaken
+    · exact (mk_fr k.base [] (xs.take n) false s).weaken
         (fun i hi => mutIdsL_sub_node (take_ids_sub n xs i hi)) (fun _ h => h)
     · exact Fr.refl (by simp [resIds])
   | none => exact Fr.refl (by simp [laxCut, resIds])
@@ -435,7 +439,10 @@ theorem opqIds_sub_mutIds : ∀ (v : Val) (i : Nat), i ∈ v.opqIds → i ∈ v.
       have := opqIds_sub_mutIds v i hi
       exact mutIdsL_sub_node (mem_mutIdsL.mpr ⟨v, hv, this⟩)
     · rename_i hc
-      have hm : k.mutable = true := by cases k <;> simp_all [Kind.copied, Kind.mutable]
+      have hm : k.mutable = true := by
+        cases k with
+        | usr b => cases b <;> simp_all [Kind.copied, Kind.mutable, Kind.base]
+        | _ => simp_all [Kind.copied, Kind.mutable, Kind.base]
       simp only [Val.mutIds, hm, if_true]
       exact h
 termination_by v => sizeOf v
@@ -1025,6 +1032,11 @@ theorem conv_fr (E : Env) (A : List Nat) (hleak : ∀ i ∈ E.leak, i ∈ A) :
           split
           · exact Fr.refl (by simpa [resIds] using hv)
           · exact Fr.refl (by simp [resIds])
+        | usr b =>
+          simp only
+          split
+          · exact hinit [] [] (by simp)
+          · exact Fr.refl (by simp [resIds])
         | dict => exact hinit ks xs hxs
         | list =>
           simp only
@@ -1367,9 +1379,9 @@ theorem setattrWrites_ok (d : Decl) (fname : String) (v : Val) (hv : v.mutIds = 
   split at hp
   · rename_i i c ks a aks avs xs0
     have hi : i ∈ (Val.node i (Kind.inst c) ks (Val.node a Kind.dict aks avs :: xs0)).mutIds := by
-      simp [Val.mutIds, Kind.mutable]
+      simp [Val.mutIds, Kind.mutable, Kind.base]
     have ha : a ∈ (Val.node i (Kind.inst c) ks (Val.node a Kind.dict aks avs :: xs0)).mutIds := by
-      simp [Val.mutIds, Kind.mutable, mutIdsL]
+      simp [Val.mutIds, Kind.mutable, Kind.base, mutIdsL]
     simp only at hp
     split at hp
     · split at hp
